@@ -135,6 +135,14 @@ Representable(n, kind) ==
 KindBits(kind) == CASE kind \in {"int8", "uint8"} -> 8 [] kind \in {"int16", "uint16"} -> 16
                     [] kind \in {"int32", "uint32", "float32"} -> 32
                     [] OTHER -> 64
+\* Bit patterns, most significant bit first, in the kind's own width.  The smallest non-zero value
+\* of every kind is the pattern 0...01: the integer one, and for the IEEE 754 kinds the smallest
+\* subnormal.  The largest finite IEEE 754 value has sign 0, the exponent field all ones but its
+\* last bit, and the fraction all ones; the minimum is the same with sign 1.
+FloatExpBits(kind) == IF kind = "float32" THEN 8 ELSE 11
+SmallestPattern(kind) == [i \in 1..KindBits(kind) |-> IF i = KindBits(kind) THEN 1 ELSE 0]
+FloatMaxPattern(kind, sign) ==
+  [i \in 1..KindBits(kind) |-> IF i = 1 THEN sign ELSE IF i = FloatExpBits(kind) + 1 THEN 0 ELSE 1]
 IsSignedKind(kind) == kind \in {"int", "int8", "int16", "int32", "int64", "float32", "float64"}
 
 =============================================================================
